@@ -132,3 +132,118 @@ Proof.
       apply upd_nth_other. exact E.
     + apply Forall_forall. intros o Ho. apply filter_In in Ho. destruct Ho as [_ Ho]. apply Nat.eqb_eq in Ho. exact Ho.
 Qed.
+
+(** ** C08: codec construction returns a codec or an error *)
+
+(** never a crash or a non-terminating construction; the only other outcome is
+    the unbounded lookup table of a huge index (known finding D22) *)
+Definition build_safe {A} (r : res A) : Prop := match r with Panic _ | Hang _ => False | _ => True end.
+
+Lemma build_fields_safe cf : (forall t tag, build_safe (cf t tag)) ->
+  forall l i, build_safe (build_fields cf i l).
+Proof.
+  intros Hcf. induction l as [|fd r IH]; intros i; cbn [build_fields]; [exact I|].
+  destruct (negb (fd_exported fd)); [apply IH|]. cbv zeta.
+  destruct (bytes_eqb (fd_plenc fd) []); [exact I|].
+  destruct (bytes_eqb (fd_plenc fd) [45]); [apply IH|].
+  destruct (cut 44 (fd_plenc fd)) as [num post]. destruct (atoi num) as [index|]; [|exact I].
+  destruct (index <? 0)%Z; [exact I|].
+  match goal with |- build_safe (do fc <- cf ?a ?b; _) => specialize (Hcf a b); destruct (cf a b) end; cbn [bind build_safe] in *; auto.
+  specialize (IH (S i)). destruct (build_fields cf (S i) r); cbn [bind build_safe] in *; auto.
+Qed.
+
+Theorem codec_for_safe : forall C E fuel t tag, build_safe (codec_for C E fuel t tag).
+Proof.
+  intros C E. induction fuel as [|f IH]; intros t tag; cbn [codec_for]; [exact I|].
+  destruct (lookup (regs_of C) t tag); [exact I|].
+  destruct (strip t); try exact I; unfold basic; try (destruct (lookup _ _ _); exact I).
+  - (* pointer *) destruct (is_map_kind t0); [exact I|]. specialize (IH t0 tag).
+    destruct (codec_for C E f t0 tag); cbn [bind build_safe] in *; auto.
+  - (* slice *) destruct (negb _); [exact I|]. specialize (IH t0 []).
+    destruct (codec_for C E f t0 []) as [sub| | | |]; cbn [bind build_safe] in *; auto.
+    destruct (wire sub =? WTVarInt); [exact I|]. destruct ((wire sub =? WT64) || (wire sub =? WT32)); [destruct (is_ptr_kind t0); exact I|].
+    destruct (wire sub =? WTLength); [destruct (proto_arrays C || bytes_eqb tag s_proto); exact I|exact I].
+  - (* map *) destruct (negb _); [exact I|]. destruct (is_map_kind t0_2); [exact I|].
+    pose proof (IH t0_1 []) as H1. destruct (codec_for C E f t0_1 []); cbn [bind build_safe] in *; auto.
+    pose proof (IH t0_2 []) as H2. destruct (codec_for C E f t0_2 []); cbn [bind build_safe] in *; auto.
+    destruct (bytes_eqb tag s_proto); exact I.
+  - (* struct *) destruct tag; [|exact I]. destruct (nth_error E (N.to_nat id)) as [sd|]; [|exact I].
+    pose proof (build_fields_safe (codec_for C E f) IH (sd_fields sd) 0) as Hb.
+    destruct (build_fields (codec_for C E f) 0 (sd_fields sd)) as [fs| | | |]; cbn [bind build_safe] in *; auto.
+    destruct (max_sane_index <=? _)%Z; [exact I|]. destruct (has_dup fs); exact I.
+  - (* external struct types *) destruct tag; [|exact I]. destruct (k =? 0); exact I.
+Qed.
+
+(** the listed causes never yield a codec *)
+Lemma bytes_eqb_eq : forall a b, bytes_eqb a b = true <-> a = b.
+Proof.
+  induction a as [|x a IH]; destruct b as [|y b]; cbn; split; intros H; try discriminate; try reflexivity.
+  - apply andb_true_iff in H. destruct H as [H1 H2]. apply N.eqb_eq in H1. apply IH in H2. congruence.
+  - inversion H; subst. rewrite N.eqb_refl. apply IH. reflexivity.
+Qed.
+
+Definition bad_field (fd : fdef) : Prop :=
+  fd_exported fd = true /\
+  (fd_plenc fd = [] \/
+   (fd_plenc fd <> [45] /\
+    (atoi (fst (cut 44 (fd_plenc fd))) = None \/ exists i, atoi (fst (cut 44 (fd_plenc fd))) = Some i /\ (i < 0)%Z))).
+
+Lemma build_fields_bad cf : forall l i, Exists bad_field l -> forall fs, build_fields cf i l <> Ok fs.
+Proof.
+  induction l as [|fd r IH]; intros i Hex fs; [inversion Hex|]. cbn [build_fields]. cbv zeta.
+  inversion Hex as [? ? Hb|? ? Hr]; subst.
+  - destruct Hb as [Hexp Hb]. rewrite Hexp. cbn [negb].
+    destruct Hb as [Hn|[Hd Hb]]; [rewrite Hn; cbn; discriminate|].
+    destruct (bytes_eqb (fd_plenc fd) []); [discriminate|].
+    destruct (bytes_eqb (fd_plenc fd) [45]) eqn:E45; [apply bytes_eqb_eq in E45; contradiction|].
+    destruct (cut 44 (fd_plenc fd)) as [num post]. cbn [fst] in Hb.
+    destruct Hb as [Hb|(idx & Hb & Hneg)]; rewrite Hb; [discriminate|].
+    replace (idx <? 0)%Z with true by (symmetry; apply Z.ltb_lt; exact Hneg). discriminate.
+  - destruct (negb (fd_exported fd)); [apply IH; exact Hr|].
+    destruct (bytes_eqb (fd_plenc fd) []); [discriminate|].
+    destruct (bytes_eqb (fd_plenc fd) [45]); [apply IH; exact Hr|].
+    destruct (cut 44 (fd_plenc fd)) as [num post]. destruct (atoi num) as [index|]; [|discriminate].
+    destruct (index <? 0)%Z; [discriminate|].
+    match goal with |- (do fc <- cf ?a ?b; _) <> _ => destruct (cf a b) end; cbn [bind]; try discriminate.
+    specialize (IH (S i) Hr). destruct (build_fields cf (S i) r) as [rest| | | |]; cbn [bind]; try discriminate.
+    exfalso. apply (IH rest). reflexivity.
+Qed.
+
+(** C08: a struct with an exported field that has no plenc tag, an unparsable
+    index or a negative index never gets a codec *)
+Theorem bad_definition_rejected : forall C E f id sd,
+  lookup (regs_of C) (TStruct id) [] = None ->
+  nth_error E (N.to_nat id) = Some sd -> Exists bad_field (sd_fields sd) ->
+  forall c, codec_for C E (S f) (TStruct id) [] <> Ok c.
+Proof.
+  intros C E f id sd Hl Hn Hbad c. cbn [codec_for strip]. rewrite Hl, Hn.
+  pose proof (build_fields_bad (codec_for C E f) (sd_fields sd) 0 Hbad) as Hb.
+  destruct (build_fields (codec_for C E f) 0 (sd_fields sd)) as [fs| | | |]; cbn [bind]; try discriminate.
+  exfalso. apply (Hb fs). reflexivity.
+Qed.
+
+(** C08: two fields sharing an index never get a codec *)
+Lemma has_dup_spec : forall fs, has_dup fs = false -> NoDup (map (fun f => f_index f) fs).
+Proof.
+  induction fs as [|f r IH]; intros H; cbn [has_dup map] in *; [constructor|].
+  apply orb_false_iff in H. destruct H as [H1 H2]. constructor; [|apply IH; exact H2].
+  intros Hin. apply in_map_iff in Hin. destruct Hin as (g & Hg & Hing).
+  assert (existsb (fun f2 => (f_index f =? f_index f2)%Z) r = true).
+  { apply existsb_exists. exists g. split; [exact Hing|]. apply Z.eqb_eq. congruence. }
+  congruence.
+Qed.
+
+Theorem accepted_struct_indexes : forall C E f id sd nm n fs,
+  lookup (regs_of C) (TStruct id) [] = None ->
+  nth_error E (N.to_nat id) = Some sd ->
+  codec_for C E (S f) (TStruct id) [] = Ok (CStruct nm n fs) ->
+  NoDup (map (fun f => f_index f) fs) /\ Forall (fun f => (f_index f < max_sane_index)%Z) fs /\ n = length (sd_fields sd).
+Proof.
+  intros C E f id sd nm n fs Hl Hn H. cbn [codec_for strip] in H. rewrite Hl, Hn in H.
+  destruct (build_fields (codec_for C E f) 0 (sd_fields sd)) as [fs0| | | |]; cbn [bind] in H; try discriminate.
+  destruct (max_sane_index <=? _)%Z eqn:Em; [discriminate|].
+  destruct (has_dup fs0) eqn:Ed; [discriminate|]. inversion H; subst.
+  split; [apply has_dup_spec; exact Ed|]. split; [|reflexivity].
+  apply Z.leb_gt in Em. clear -Em. induction fs as [|g r IH]; [constructor|].
+  cbn [fold_right] in Em. constructor; [lia|]. apply IH. lia.
+Qed.
